@@ -3,6 +3,7 @@ import sys
 
 COUNTS = {"body": 0, "reach": 0}
 DETAIL = []
+TRACED = []   # failure descriptions seen while tracing (diagnostics for non-reproducing counterexamples)
 
 
 def tracing() -> bool:
@@ -25,6 +26,16 @@ def reach():
 
 def fail(msg=None):
     """Return False (property violated); on concrete replays keep a description."""
+    if msg is not None and tracing():
+        from crosshair.tracers import NoTracing
+        from crosshair.core import deep_realize
+        try:
+            m = msg() if callable(msg) else msg
+            m = deep_realize(m)
+            with NoTracing():
+                TRACED.append(str(m)[:1500])
+        except Exception as e:
+            TRACED.append("<detail failed: %r>" % (e,))
     if msg is not None and not tracing():
         try:
             DETAIL.append(msg() if callable(msg) else str(msg))
